@@ -55,6 +55,8 @@ struct fm_shape_info {
   X(void, fm_un_range,      (int op, i64 start, size_t n, i64* out)) \
   X(void, fm_un_batch,      (int op, const i64* a, size_t n, i64* out)) \
   X(i64,  fm_bin,           (int op, i64 a, i64 b)) \
+  X(i64,  fm_un_env,        (int op, i64 a, int errno_value)) \
+  X(i64,  fm_bin_env,       (int op, i64 a, i64 b, int errno_value)) \
   X(void, fm_bin_row,       (int op, i64 a, const i64* b, size_t n, i64* out)) \
   X(void, fm_bin_batch,     (int op, const i64* a, const i64* b, size_t n, i64* out)) \
   X(i64,  fm_shift,         (int left, i64 a, int r)) \
